@@ -200,7 +200,7 @@ def _run_control(mod, pm, tier, c):
         try:
             pm2 = pm.mutated(changes, predesugared=pre)
             ctx2 = Ctx(mod.PROP, "control", quiet=True)
-            run_full(mod, pm2, ctx2)
+            run_full(mod, pm2, ctx2, adopt=("<" in c["rule"]))      # own rules only: adopted rules have their controls where they live
             fired = [f for f in ctx2.findings if f.rule == c["rule"] or f.rule in c.get("also", ())]
             base_keys = c.get("_base_keys", set())
             fired = [f for f in fired if f.key_tuple() not in base_keys]
